@@ -106,7 +106,8 @@ pub struct Ctx {
     pub evaluations: u64,
     pub transitions: u64,
     pub states: HashSet<u64>,
-    pub distinct_nontrivial: HashSet<u64>,
+    pub distinct_nontrivial: u64,
+    pub ref_shapes: HashSet<u64>,
     pub outcomes: HashSet<u64>,
     pub excluded_budget: u64,
     pub samples: Vec<Value>,
@@ -141,7 +142,8 @@ impl Ctx {
             evaluations: 0,
             transitions: 0,
             states: HashSet::new(),
-            distinct_nontrivial: HashSet::new(),
+            distinct_nontrivial: 0,
+            ref_shapes: HashSet::new(),
             outcomes: HashSet::new(),
             excluded_budget: 0,
             samples: vec![],
@@ -254,7 +256,8 @@ impl Ctx {
             self.evaluations += 1;
             let new_state = self.states.insert(h64(&(&c.src, c.mode as u8 as u32, c.tag)));
             if c.nontrivial && new_state {
-                self.distinct_nontrivial.insert(h64(&(ref_class(&r), shape_bytes(&r.stdout), shape(&o.msg))));
+                self.distinct_nontrivial += 1;
+                self.ref_shapes.insert(h64(&(ref_class(&r), shape_bytes(&r.stdout), shape(&o.msg))));
             }
             self.outcomes.insert(h64(&(&o.class, shape(&o.msg), shape_bytes(&o.stdout))));
             if self.samples.len() < 3 && (self.evaluations == 1 || self.evaluations % 977 == 0) {
